@@ -50,7 +50,11 @@ def parseV1 (tok : String) : Option V1 :=
     else if tag == "i" then body.toNat?.map .int
     else if tag == "b" then some (.bool (body == "true"))
     else if tag == "l" then some (.strs (if body == "-" then [] else (body.splitOn ",").map dec))
-    else if tag == "t" then some .tbl
+    else if tag == "t" then
+      some (.tbl (if body == "-" then [] else (body.splitOn ",").filterMap fun p =>
+        match p.splitOn "=" with
+        | [k, v] => some (dec k, dec v)
+        | _ => none))
     else none
   | [] => none
 
@@ -61,7 +65,9 @@ def renderEff : Eff → String
   | .dur n => s!"d:{n}"
   | .mem n => s!"m:{n}"
   | .strs l => if l.isEmpty then "l:-" else "l:" ++ ",".intercalate (l.map enc)
-  | .tbl => "t:-"
+  | .tbl kv =>
+    if kv.isEmpty then "t:-" else
+    "t:" ++ ",".intercalate ((kv.map fun p => enc p.1 ++ "=" ++ enc p.2).toArray.qsort (· < ·)).toList
   | .invalid => "invalid"
   | .unknown => "?"
 
@@ -130,6 +136,21 @@ def In.record (i : In) (op : List String) (exts : List (List String)) : Option I
     | _, _ => none
   | _ => none
 
+/-- Which of the proposed repairs (`Model.Convert.Fixes`) the code under test contains.  All `false`
+= /repo as it is.  Flip a flag here when the corresponding patch lands; for a trial run against a
+patched worktree set `VERIF_C38_FIXED=yamlf,items,deprecated,renderMap,condValue` (any subset). -/
+def fixesDefault : Fixes := {}
+
+def fixesFromEnv (v : Option String) : Fixes :=
+  match v with
+  | none => fixesDefault
+  | some s =>
+    let l := s.splitOn ","
+    { yamlf := fixesDefault.yamlf || l.contains "yamlf", items := fixesDefault.items || l.contains "items",
+      deprecated := fixesDefault.deprecated || l.contains "deprecated",
+      renderMap := fixesDefault.renderMap || l.contains "renderMap",
+      condValue := fixesDefault.condValue || l.contains "condValue" }
+
 def units : List (Nat × String × Nat) := Gen.Convert.memUnits
 def depKeys : List Key := Gen.Convert.depKeys.map parseKey
 
@@ -192,7 +213,7 @@ def rulesConvertOK (i : In) : Bool :=
     if !dsPresent i ds then true else
     let st := dsType i ds
     let extra : List (String × V1) :=
-      if ds == "-" then ((dsNames i).filter (· != "-")).map (fun n => (n, V1.tbl)) else []
+      if ds == "-" then ((dsNames i).filter (· != "-")).map (fun n => (n, V1.tbl [])) else []
     v1SamplerTypes.contains st && !anyError x st (dsFields i ds ++ extra) &&
     (if st == "RulesBasedSampler" then
       (ruleIdx i ds).all fun n =>
@@ -264,7 +285,7 @@ structure St where
   rconv : Option Bool := none             -- rules: conversion got through
   loaded : Bool := false
 
-def cfgStep (s : St) (op : List String) (exts : List (List String)) : St × Option String :=
+def cfgStep (fx : Fixes) (s : St) (op : List String) (exts : List (List String)) : St × Option String :=
   match s.inp.record op exts with
   | some i => ({ s with inp := i }, none)
   | none =>
@@ -275,7 +296,7 @@ def cfgStep (s : St) (op : List String) (exts : List (List String)) : St × Opti
       let ok := rulesConvertOK s.inp
       ({ s with rconv := some ok }, some (if ok then "exit=0 kind=converted" else "exit=1 kind=aborted"))
     else
-      let fo := convertFile x units table depKeys Gen.Convert.depGroups s.inp.data
+      let fo := convertFile fx x units table depKeys Gen.Convert.depGroups s.inp.data
       ({ s with converted := some fo }, some (match fo with
         | .aborted => "exit=1 kind=aborted"
         | .dump => "exit=0 kind=dump"
@@ -285,7 +306,7 @@ def cfgStep (s : St) (op : List String) (exts : List (List String)) : St × Opti
       match s.rconv with
       | none => (s, some "not-converted")
       | some ok =>
-        let l := ok && !hasValuelessCond s.inp
+        let l := ok && (fx.condValue || !hasValuelessCond s.inp)
         ({ s with loaded := l }, some (if l then "ok" else "fail"))
     else
       match s.converted with
@@ -297,7 +318,7 @@ def cfgStep (s : St) (op : List String) (exts : List (List String)) : St × Opti
     if !s.loaded then (s, some "unloaded") else
     match findRow gf with
     | none => (s, some "*")       -- a field the template has no action for: not the model's business
-    | some r => (s, some (renderEff (effective x r (convertRow x units s.inp.data r))))
+    | some r => (s, some (renderEff (effective x r (convertRow fx x units s.inp.data r))))
   | "rget" :: _ | "rgetrule" :: _ | "rgetcond" :: _ | "rgetdown" :: _ =>
     if !s.loaded then (s, some "unloaded") else (s, some (rgetModel s.inp op))
   | _ => (s, some "bad-op")
@@ -313,7 +334,7 @@ def fail (sig what : String) : Fail := { prop := "C38", sig := sig, what := what
 
 def valueHelper : Helper → Bool
   | .nonDefaultOnly | .nonEmptyString | .nonZero | .secondsToDuration | .memorysize | .choice
-  | .renderStringarray => true
+  | .renderStringarray | .renderMap => true
   | _ => false
 
 def kindName : FType → String
@@ -353,7 +374,13 @@ def loadErrPairs (exts : List (List String)) : List (String × String) :=
 
 def cfgMon (m : MSt) (op : List String) (exts : List (List String)) (obs : Option String) : MSt × List Fail :=
   match m.inp.record op exts with
-  | some i => ({ m with inp := i }, [])
+  | some i =>
+    -- the assumption the repaired `yamlf` rests on (`coreSchema`), checked on every string of the case
+    let bad := exts.filterMap fun e => match e with
+      | ["yaml", s, "=", t] => if isPlainFixed (dec s) && t != "str" then some (dec s) else none
+      | _ => none
+    ({ m with inp := i }, bad.map fun s =>
+      fail "C38:assumption:yaml-core-schema" s!"yaml.v3 reads the bare word {s} as a non-string although it is letters+digits and not a reserved word")
   | none =>
   let x := m.inp.ext
   let o := obs.getD "-"
@@ -429,10 +456,12 @@ def cfgMon (m : MSt) (op : List String) (exts : List (List String)) (obs : Optio
     (m, [fail ("C38:rules:value-changed:" ++ (op.getLast?.getD "-")) s!"{" ".intercalate op}: the v1 rules say {e}, the loaded v2 rules have {o}"])
   | _ => (m, [])
 
-def comp : Component St MSt where
+def comp (fx : Fixes) : Component St MSt where
   init := fun args => { inp := { kind := (kv args "kind").getD "config" } }
-  step := cfgStep
+  step := cfgStep fx
   minit := fun args => { inp := { kind := (kv args "kind").getD "config" } }
   mon := cfgMon
 
-def main : IO Unit := do runLoop comp (← IO.getStdin)
+def main : IO Unit := do
+  let fx := fixesFromEnv (← IO.getEnv "VERIF_C38_FIXED")
+  runLoop (comp fx) (← IO.getStdin)
